@@ -11,12 +11,13 @@ CONSTANTS MaxN,        \* created clusters: 3..MaxN nodes
 Addr(i) == "00000000000000000000000000000000000000a" \o ToString(i)
 FortCfg(ver, art) == [src |-> "fort", art |-> art, ver |-> ver, n |-> 3, t |-> 2, v |-> 2, net |-> "goerli",
                       amounts |-> <<>>, comp |-> FALSE, gas |-> 30000000, fee |-> <<Addr(1), Addr(2)>>,
-                      wd |-> <<Addr(3), Addr(4)>>, signed |-> ver >= 3, flaw |-> "none"]
+                      wd |-> <<Addr(3), Addr(4)>>, signed |-> ver >= 3, flaw |-> "none", msig |-> 0]
+MultiSigCfg(art, k) == [FortCfg(Latest, art) EXCEPT !.msig = k]
 FlawedCfg(ver, art, f) == [FortCfg(ver, art) EXCEPT !.flaw = f]
 CreateCfg(n, t, am, comp) ==
                      [src |-> "create", art |-> "lock", ver |-> Latest, n |-> n, t |-> t, v |-> 2, net |-> "hoodi",
                       amounts |-> am, comp |-> comp, gas |-> 36000000, fee |-> <<Addr(1), Addr(2)>>,
-                      wd |-> <<Addr(3), Addr(4)>>, signed |-> FALSE, flaw |-> "none"]
+                      wd |-> <<Addr(3), Addr(4)>>, signed |-> FALSE, flaw |-> "none", msig |-> 0]
 \* the artifacts an honest writer produces for a configuration, over abstract keys
 AmountSeq(c) == SetToSeq(ExpAmountStrs(c))
 Key(i) == "K" \o ToString(i)
@@ -40,6 +41,7 @@ CanonFiles(c) == [j \in DOMAIN AmountSeq(c) |->
 ThresholdsOf(n) == IF Thresholds = "all" THEN {0} \cup 2..n ELSE {0}
 MCInit == \/ \E ver \in FortVers, art \in {"lock", "def"} : InitWith(FortCfg(ver, art))
           \/ \E ver \in FortVers, art \in {"lock", "def"}, f \in Flaws : FlawApplies(f, ver, art) /\ InitWith(FlawedCfg(ver, art, f))
+          \/ \E art \in {"lock", "def"}, k \in {2, 3} : Latest \in FortVers /\ InitWith(MultiSigCfg(art, k))
           \/ \E n \in 3..MaxN : \E t \in ThresholdsOf(n) :
                \E am \in {<<>>, <<1, 31>>, <<16, 16, 8>>} : \E comp \in BOOLEAN : InitWith(CreateCfg(n, t, am, comp))
 \* bound of the exploration only: the next case starts from the pristine file again (the design spec allows starting
@@ -48,7 +50,7 @@ Discard == cur.state = "done" /\ cur' = Pristine /\ verdict' = "intact" /\ UNCHA
 MCNext == \/ Create \/ Load(CanonView(cfg)) \/ Verify \/ VerifyFlawed
           \/ \E i \in 1..cfg.n : Keystores(i) \/ Deposits(i, CanonFiles(cfg))
           \/ \E S \in SUBSET (1..cfg.n) : Combine(S)
-          \/ cur.state = "pristine" /\ \E r \in Rows : \E kind \in KindsOf(r) : \E ch \in BOOLEAN :
+          \/ cur.state = "pristine" /\ \E r \in Rows : \E kind \in KindsOf(r) \cup PosKinds : \E ch \in BOOLEAN :
                                          Tamper(FullPath(r, cfg.art), kind, ch)
           \/ cur.state = "pristine" /\ \E kind \in Rewrites : Rewrite(kind)
           \/ Discard
